@@ -34,7 +34,7 @@ TIERS = {
         "exhaustive": [("ExcState_wide", "1 compound statement, <= 2 injected leaves, all handler lists / context managers / leaves"),
                        ("ExcState_deep", "2 nested compound statements (try, try/finally, with, loop), <= 2 leaves of "
                                          "{raise A, bare raise, return, break, continue}")],
-        "sim": ("ExcState_sim", 12, 3000, 300, "random growth to depth <= 3, <= 4 compound statements, <= 4 leaves"),
+        "sim": ("ExcState_sim", 12, 3000, 200, "random growth to depth <= 3, <= 4 compound statements, <= 4 leaves"),
         "chunk": 80,
     },
     "thorough": {
@@ -124,6 +124,7 @@ def run(tier, seed):
                     action_cov[a] += 1
         del r
     n_exh = len(progs)
+    phase = {"tlc_exhaustive": round(time.time() - t0, 1)}
     scfg, sdepth, smax, stake, sdesc = T["sim"]
     r = core.tlc_simulate("ExcState", scfg, seconds=90 if tier == "quick" else 600, depth=sdepth, workers=1, seed=seed,
                           max_records=smax)
@@ -146,6 +147,7 @@ def run(tier, seed):
         if action_cov[a] == 0:
             core.die("vacuous model: action %s never produced a new state" % a)
 
+    phase["tlc_simulation"] = round(time.time() - t0 - phase["tlc_exhaustive"], 1)
     keys = list(progs)
     names = {k: "f%d" % i for i, k in enumerate(keys)}
     cases = []          # (key, run)
@@ -161,6 +163,8 @@ def run(tier, seed):
         classes["out:" + c["out"]] += 1
         if c["again"]:
             classes["reraised_exception_needed_again"] += 1
+        if c["retover"]:
+            classes["return_overridden_inside_loop"] += 1
         user_excs = c["nexc"] - (1 if c["outer"] else 0)
         if user_excs:
             nontrivial.add((k, c["outer"]))
@@ -178,7 +182,7 @@ def run(tier, seed):
                 classes[nm] += 1
         if any(e[0] in (0, 1) and e[2] != ("Z[-,-,F]" if c["outer"] else "-") for e in c["log"]):
             classes["probe_sees_handled_exception"] += 1
-    for need in ("out:norm", "out:ret", "out:raise", "reraised_exception_needed_again", "propagates:RuntimeError", "propagates:Z",
+    for need in ("out:norm", "out:ret", "out:raise", "reraised_exception_needed_again", "return_overridden_inside_loop", "propagates:RuntimeError", "propagates:Z",
                  "propagates:A", "propagates:C", "suppress_context", "chained", "handler_entered", "exit_called",
                  "probe_sees_handled_exception"):
         if classes[need] == 0:
@@ -191,7 +195,8 @@ def run(tier, seed):
         ks = keys[m:m + chunk]
         src, shapes = lib_exc.render_module([(names[k], progs[k]["prog"]) for k in ks], seed)
         mods.append({"name": "c22m%d" % (m // chunk), "keys": ks, "src": src, "shapes": shapes})
-    shape_cov = collections.Counter(s for m in mods for sh in m["shapes"].values() for s in sh.values())
+    shape_cov = collections.Counter(s for m in mods for sh in m["shapes"].values() for p, s in sh.items() if p != "loops")
+    loops_of = {n: sh["loops"] for m in mods for n, sh in m["shapes"].items()}
     fsrc = {}
     for m in mods:
         parts = m["src"].split("\ndef ")
@@ -210,6 +215,7 @@ def run(tier, seed):
     fut = pool.submit(core.build_many, specs, core.subdir("build"), jobs)
 
     # ---- P: plain CPython
+    t1 = time.time()
     call_list = [["RUN", [names[k], c["outer"]]] for k, c in cases]
     gotP = lib_exc.run_plain(wd, allsrc, call_list)
     drift = 0
@@ -245,8 +251,11 @@ def run(tier, seed):
         if selftest["corrupted"] == 0 or selftest["rejected"] != selftest["corrupted"]:
             core.die("binding self-test failed: %r" % selftest)
 
+    phase["cpython_and_selftest"] = round(time.time() - t1, 1)
     # ---- C: compiled by Cython from the snapshot
     builds = fut.result()
+    phase["build_total"] = round(time.time() - t1, 1)
+    t2 = time.time()
     pool.shutdown()
     case_idx = collections.defaultdict(list)
     for i, (k, c) in enumerate(cases):
@@ -273,6 +282,7 @@ def run(tier, seed):
             for i, o in zip(idx, obs):
                 gotC[i] = json.loads(o) if isinstance(o, str) and o.startswith("[") else o
 
+    phase["compiled_calls"] = round(time.time() - t2, 1)
     replays = 0
     obs_classes = collections.Counter()
     samples = []
@@ -286,7 +296,8 @@ def run(tier, seed):
             oc = classify(w, g)
             obs_classes[oc] += 1
             kinds, leaves = features(progs[k]["prog"])
-            rep.disagree({"again": bool(c["again"]), "outer": bool(c["outer"]), "out": c["out"], "kinds": kinds, "leaves": leaves},
+            rep.disagree({"again": bool(c["again"]), "retover": bool(c["retover"]), "loops": loops_of[names[k]],
+                          "outer": bool(c["outer"]), "out": c["out"], "kinds": kinds, "leaves": leaves},
                          oc, {"prog": progs[k]["prog"], "outer": c["outer"], "source": fsrc[names[k]], "shapes": None,
                               "want [log, outcome, exc_info after the call]": w, "got": g, "from": progs[k]["src"]})
     for i in rng.sample(range(len(cases)), 3):
@@ -299,7 +310,7 @@ def run(tier, seed):
         "traces_validated_against_impl": replays,
         "evaluations": len(cases) + replays, "distinct_nontrivial": len(nontrivial),
         "programs": len(keys), "programs_exhaustive": n_exh, "programs_from_simulation": taken, "modules": len(mods),
-        "build_failures": build_failures,
+        "build_failures": build_failures, "phase_wall_s": phase,
         "exhaustive": False,
         "action_coverage": dict(action_cov), "case_classes": dict(classes), "handler_shapes_rendered": dict(shape_cov),
         "disagreement_classes": dict(obs_classes), "binding_selftest": selftest,
